@@ -1,6 +1,6 @@
 ENGINES = [
     {'name': 'X', 'path': 'lib/xworker.py', 'kind_free_text': 'CrossHair 0.0.110 symbolic execution of the real Python functions (z3 decides every branch), one OS process per condition, vacuity twin per condition, plain-CPython replay of every counterexample',
-     'serves_properties': ['C01', 'C02', 'C04', 'C05', 'C06', 'C07', 'C08', 'C09', 'C10', 'C11', 'C12', 'C13', 'C14', 'C15', 'C16', 'C17', 'C18', 'C19', 'C20']},
+     'serves_properties': ['C01', 'C02', 'C03', 'C04', 'C05', 'C06', 'C07', 'C08', 'C09', 'C10', 'C11', 'C12', 'C13', 'C14', 'C15', 'C16', 'C17', 'C18', 'C19', 'C20']},
     {'name': 'Z', 'path': 'lib/zworker.py', 'kind_free_text': 'z3 sequence-theory queries over SHA-1 pre-image terms recorded by executing the real digest code on symbolic strings (lib/zsym.py); sat models replayed on the real functions with the real hashlib',
      'serves_properties': ['C02', 'C03', 'C07']},
 ]
@@ -86,12 +86,17 @@ CLAIMS = {
         design_ref='DESIGN.md section 4, C02',
         note='Trusted: SHA-1 injectivity, ASCII strings with lengths < 256, specs of the documented variable rules. Outside: SCM asDigestScript text formats, YAML loading, include files, tool environment, provided variables of dependencies.'),
     'C03': dict(
-        engine='Z',
-        technique='z3 non-interference and equivalence queries over the id pre-images recorded from the real CoreStep.getDigest and StepIR.getDigestCoro (vs. each other and vs. a frozen byte-format specification)',
-        text='Within the shape bound: the Variant-Id pre-image does not change with dict insertion order of tools/variables, weak or undeclared variables, the sandbox of an un-fingerprinted step, or the host part of a tool '
-             'provider id; CoreStep.getDigest, StepIR.getDigestCoro and the frozen format specification produce identical bytes for all contents (so stored, Jenkins and live ids agree and existing ids stay valid).',
+        engine='Z+X',
+        technique='z3 non-interference and equivalence queries over the id pre-images recorded from the real CoreStep.getDigest and StepIR.getDigestCoro (vs. each other and vs. a frozen byte-format specification); '
+                  'CrossHair+z3 enumeration of generated projects x id-irrelevant perturbations through the real parser',
+        text='(1) Within the shape bound: the Variant-Id pre-image does not change with dict insertion order of tools/variables, weak or undeclared variables, the sandbox of an un-fingerprinted step, or the host part of a tool '
+             'provider id; CoreStep.getDigest, StepIR.getDigestCoro and the frozen format specification produce identical bytes for all contents (so stored, Jenkins and live ids agree and existing ids stay valid). '
+             '(2) Parser level: for the generated projects of the C04 harness (feature bits symbolic) the Variant-Ids of all three steps of every package path are unchanged under another absolute project path (long, blanks, '
+             'non-ASCII), reversed creation order of recipe files and of files included through a glob pattern, shifted time stamps, a warm second parse, sandbox switched on, and PYTHONHASHSEED 0 / 1 / 4711 in fresh interpreters. '
+             '"Number of times a package is reached / parse order" is decided by the C04 check.',
         design_ref='DESIGN.md section 4, C03',
-        note='Partial: parser-level independence (paths, timestamps, listing order, PYTHONHASHSEED, parse order) needs whole-program runs and is outside; golden ids of test/black-box/stable-variant-ids are not re-run here.'),
+        note='Outside: golden ids of test/black-box/stable-variant-ids (the frozen format specification stands in for them), Build-Ids at parser level (covered through the C07 world check: other location => download without build), '
+             'audit-file / meta-environment / network-access / job-server settings at parser level.'),
     'C07': dict(
         engine='Z+X',
         technique='z3 collision / non-interference queries over the Build-Id pre-image recorded from the real StepIR.getDigestCoro(fingerprint, platform, relaxTools=True); CrossHair+z3 enumeration of upload / download '
